@@ -34,25 +34,37 @@ def rules(t):
     out.append(r)
     pp = t.fn("RenetClient::process_packet")
     r = RuleResult("C08.b", "acknowledged sequences = keys of sent_packets inside the packet's ranges; released ids = what the removed record says was carried", floor=3)
-    rng = list(t.calls(r"BTreeMap.*::range$", pp))
-    for c in rng:
+    scope = fn_and_closures(t, pp)
+    rng = [(c, g) for g in scope for c in t.calls(r"BTreeMap.*::range$", g)]
+    rng_ok = []
+    for c, g in rng:
         r.site(c)
-        if not t.rooted_at_field(t.arg(c, 0), "sent_packets"): r.bad("range-recv", c, "range() not taken over sent_packets")
-        if "ack_ranges" not in fmt(t.arg(c, 1)): r.bad("range-arg", c, f"range is not one of the packet's ack ranges: {fmt(t.arg(c,1))[:60]}")
+        recv = resolved(t, t.arg(c, 0), g)
+        if not (t.rooted_at_field(recv, "sent_packets") or "sent_packets" in fmt(recv)): r.bad("range-recv", c, "range() not taken over sent_packets"); continue
+        arg = fmt(resolved(t, t.arg(c, 1), g))
+        # the range is an element of the packet's ack_ranges (directly, or the parameter of a closure mapped over them)
+        if "ack_ranges" not in arg and not (g is not pp and re.match(r"^&?\*?P2\(", arg)): r.bad("range-arg", c, f"range is not one of the packet's ack ranges: {arg[:60]}"); continue
+        rng_ok.append((c, g))
     if not rng: r.bad("range-missing", None, "acks are not restricted to sent_packets.range(packet range)")
-    rem = list(t.effects("sent_packets", {"remove"}, pp))
-    for c in rem:
+    rem = [(c, g) for g in scope for c in t.effects("sent_packets", {"remove"}, g)] + [(c, g) for g in scope if g is not pp for c in t.calls(r"BTreeMap.*::remove$", g) if "sent_packets" in fmt(resolved(t, t.arg(c, 0), g))]
+    for c, g in rem:
         r.site(c)
-        k = c.node["args"][1]
-        # key comes from iterating a local vector filled from the range iteration
-        ktxt = fmt(t.arg(c, 1))
+        ktxt = fmt(resolved(t, t.arg(c, 1), g))
         vec_locals = [l["i"] for l in pp.locals if l.get("name") == "new_acks"]
         src = [fmt(v) for l in vec_locals for _, v in pushed_into(t, pp, l)]
-        if not src or not all("::range(" in s_ or "Range" in s_ for s_ in src): r.bad("keys", c, f"removed keys do not originate from sent_packets.range(..): {src[:2]}")
+        via_range = "::range(" in ktxt or (src and all("::range(" in s_ or "Range" in s_ for s_ in src))
+        via_chain = ("collect(" in ktxt or "flat_map" in ktxt) and any(g2 is not pp for _, g2 in rng_ok) and "ack_ranges" in ktxt
+        if not (via_range or via_chain): r.bad("keys", c, f"removed keys do not originate from sent_packets.range(..): {ktxt[:80]}")
     for name, fld in (("process_message_ack", "message_ids"), ("process_slice_message_ack", "message_id"), ("acked_largest", "largest_acked_packet")):
-        for c in t.calls(name + "$", pp):
+        for c, g in [(c, g) for g in scope for c in t.calls(name + "$", g)]:
             r.site(c)
-            a = fmt(t.arg(c, 1))
+            a = fmt(resolved(t, t.arg(c, 1), g))
+            if g is not pp and re.match(r"^\*?P\d\(", a):
+                # the id is the parameter of a closure: look at what the closure is mapped over (`ids.into_iter().for_each(|id| ..)`)
+                cs = t.closure_creator(g)
+                if cs is not None:
+                    users = [x for x in t.sites(cs.fn) if x.node["k"] == "call" and any(short(g.path).split("::")[-1] in fmt(ar) and "closure" in fmt(ar) for ar in t.args(x))]
+                    if users: a = " ".join(fmt(ar) for ar in t.args(users[0]))
             if "sent_packets" not in a or "::remove(" not in a: r.bad(f"{name}|src", c, f"{name} argument is not taken from the removed sent-packet record: {a[:60]}")
     out.append(r)
     gp = t.fn("RenetClient::get_packets_to_send")
